@@ -118,7 +118,7 @@ def run(ck):
     ck.level = "model_checking"
     ck.assumptions += [
         "model alphabet: units la(1) lb(1024) ta ma nq(1/4) in a custom registry + real dimensionless/percent/radian/K/R/degC/degF/delta_degC/delta_degF/C/statC; operand values 3, [3, 5/2] (left) and 2, [2, 5] (right), zeros",
-        "operand kinds: quantity, array, zero-filled unyt array, (2,1) column, bare number/ndarray/list, bare zero number/ndarray/list, list of quantities (one unit / two dimensions)",
+        "operand kinds: quantity, array, zero-filled unyt array, (2,1) column, bare number/ndarray/list, bare zero number/ndarray/list, list of quantities (one unit / two dimensions); value classes as class ids: tiny 1e-20, denormal 5e-324, -0.0 (zero), NaN, inf, tiny/mixed/float32/list/NaN-inf bare sequences, tiny unit-carrying quantity/array",
         "floats are snapped to rationals with denominator <= 1e5 when within rel 1e-12 (exact on dyadic units); opaque values (hypot, remainder, arctan2, products) are not compared",
         "P demands a refusal only where the statement does: see 'not demanded' in design_parts/C01.md",
         "known findings are matched on (family, operation / call form / failure class)",
@@ -144,6 +144,8 @@ def run(ck):
     # ---- 1. model matrix ----
     units_q = ["la", "lb", "ta", "nd", "K", "degC"]
     units_t = ["la", "lb", "ta", "nd", "nq", "pc", "rad", "K", "R", "degC", "degF", "delta_degC", "delta_degF"]
+    sp_q = ["ts", "ds", "nz", "ns", "tm", "t32", "tl", "tq", "tqa"]  # value classes (tiny, denormal, -0.0, NaN, mixed, float32, tiny quantities)
+    sp_t = ["ts", "ds", "nz", "ns", "is", "ta", "tm", "t32", "tl", "nza", "na", "tq", "tqa"]
     k0_q = ["q", "a", "az", "bs", "za", "lq"]
     k1_q = ["q", "a", "az", "bs", "ba", "z", "lq", "lqm"]
     kall = ["q", "a", "az", "c", "bs", "ba", "bl", "z", "za", "zl", "lq", "lqm"]
@@ -160,8 +162,9 @@ def run(ck):
     consts = {
         "Units": _set(units),
         "ConvUnits": _set(units + ["C", "statC"]),
-        "UKinds0": _set(ck.q(k0_q, kall)),
-        "UKinds1": _set(ck.q(k1_q, kall)),
+        "UKinds0": _set(ck.q(k0_q + sp_q, kall + sp_t)),
+        "UKinds1": _set(ck.q(k1_q + sp_q, kall + sp_t)),
+        "SpUnits": _set(ck.q(["la", "K"], units_t)),
         "UfOps": _set(tree_ops),
         "Forms": _set(["call", "outer", "operator", "iop", "out", "at", "reduce_initial"]),
         "ArrFns": _set(arr_fns),
@@ -207,7 +210,7 @@ def run(ck):
         tpath = ck.write_json("table_mc.json", table)
         # quick: each dimension against its cyclic successors at two strides; thorough: all ordered pairs
         cfg = "CONSTANTS\n  TableUnits <- MCTable\n" + f"  Strides = {ck.q('{1, 7}', '{}')}\n  AllPairs = {ck.q('FALSE', 'TRUE')}\n"
-        cfg += f"  Units = {{}}\n  ConvUnits = {{}}\n  UKinds0 = {{}}\n  UKinds1 = {{}}\n  Forms = {{}}\n  Fams = {{}}\n  ArrFns = {_set(arr_fns)}\n  UfOps = {_set(tree_ops)}\nINIT Init\nNEXT TNext\nINVARIANT Export\nCHECK_DEADLOCK FALSE\n"
+        cfg += f"  Units = {{}}\n  ConvUnits = {{}}\n  UKinds0 = {{}}\n  UKinds1 = {{}}\n  Forms = {{}}\n  Fams = {{}}\n  SpUnits = {{}}\n  ArrFns = {_set(arr_fns)}\n  UfOps = {_set(tree_ops)}\nINIT Init\nNEXT TNext\nINVARIANT Export\nCHECK_DEADLOCK FALSE\n"
         open(ck.spec + "/MC_C01_table_run.cfg", "w").write(cfg)
         res = ck.tlc("MC_C01_table", "MC_C01_table_run", env={"TABLE": tpath}, workers=1, label=f"gamma sweep over {len(table)} dimensions of the lookup table", coverage=False, timeout=3000)
         got = res.by_tag("CASE")
